@@ -36,6 +36,13 @@ BUILTIN_EXC = ["Exception", "ValueError", "TypeError", "KeyError", "IndexError",
                "UnicodeDecodeError", "UnicodeEncodeError", "StopIteration", "AssertionError", "OSError", "LookupError", "UnicodeError"]
 
 
+def size_constants():
+    """[(name, value)] of the upper-case int constants >= 1024 of hio.core.http.httping, read from the module now"""
+    from hio.core.http import httping
+    return sorted((k, int(v)) for k, v in vars(httping).items()
+                  if k.lstrip("_").isupper() and isinstance(v, int) and not isinstance(v, bool) and v >= 1024)
+
+
 def _src(mod):
     return os.path.join(core.REPO, "src", "hio", "core", "http", mod + ".py")
 
@@ -90,6 +97,19 @@ def _sites(fn):
                 return [("decode", "UnicodeDecodeError")]
         if isinstance(node, ast.Call) and _name(node.func) == "urlsplit":
             return [("urlsplit", "ValueError")]
+        # name resolution IDNA-encodes a str host: UnicodeError for an empty / over long label
+        if isinstance(node, ast.Call) and _name(node.func) in ("normalizeHost", "getaddrinfo"):
+            return [("resolve-idna", "UnicodeError")]
+        # str.encode with a strict codec
+        if isinstance(node, ast.Call) and isinstance(node.func, ast.Attribute) and node.func.attr == "encode":
+            kw = {k.arg: k.value for k in node.keywords}
+            enc = node.args[0] if node.args else kw.get("encoding")
+            encv = enc.value if isinstance(enc, ast.Constant) else None
+            if "errors" not in kw and len(node.args) < 2 and isinstance(encv, str):
+                if encv.lower() == "idna":
+                    return [("encode-idna", "UnicodeError")]
+                if encv.lower().replace("-", "").replace("_", "") not in ("utf8",):
+                    return [("encode", "UnicodeEncodeError")]
         if isinstance(node, ast.Attribute) and node.attr == "port" and isinstance(node.ctx, ast.Load) \
                 and isinstance(node.value, ast.Name) and "plit" in node.value.id:
             return [("port", "ValueError")]
@@ -299,7 +319,11 @@ def extract():
         loops.append((f"{cls}.{fn}", callee, sorted(hs)))
 
     rsites = []
-    for mod, cls, fn in [("clienting", "Client", "redirect"), ("httping", None, "normalizeHostPort")]:
+    # everything Client.redirect runs: its own body, the re-send (transmit -> Requester.rebuild/reinit/build -> packHeader,
+    # updateQargsQuery) and the host/port normalisation
+    for mod, cls, fn in [("clienting", "Client", "redirect"), ("httping", None, "normalizeHostPort"), ("clienting", "Client", "transmit"),
+                         ("clienting", "Requester", "rebuild"), ("clienting", "Requester", "reinit"), ("clienting", "Requester", "build"),
+                         ("httping", None, "packHeader"), ("httping", None, "updateQargsQuery")]:
         f = _find(trees[mod], cls, fn)
         if f is not None:
             for ln, kind, c, hs in _sites(f):
@@ -322,6 +346,8 @@ def extract():
     L.append("def redirectStatuses : List Nat := [" + ", ".join(str(int(x)) for x in (httping.MULTIPLE_CHOICES, httping.MOVED_PERMANENTLY, httping.FOUND, httping.SEE_OTHER, httping.TEMPORARY_REDIRECT)) + "]")
     L.append("def methods : List String := [" + ", ".join(_lean_str(m) for m in httping.METHODS) + "]")
     L.append(f"def intMaxStrDigits : Nat := {maxdig}")
+    L.append("/-- module level integer constants of hio.core.http.httping that are sizes (>= 1024): boundaries for the generators -/")
+    L.append("def sizeConstants : List (String × Nat) := [" + ", ".join(f"({_lean_str(k)}, {v})" for k, v in size_constants()) + "]")
     L.append("/-- `chr(i).lower()` for i < 256 (latin-1), as code points -/")
     L.append("def latin1Lower : List Nat := [" + ", ".join(map(str, lower)) + "]")
     L.append("/-- code points < 256 with `str.isspace()` (str.split() / str.strip()) -/")
